@@ -50,7 +50,7 @@ HARNESSES = [
     *[H(n, "K-arms", sv, cost=60, timeout=900, fns=f,
         strength="B(input<=8, output<=32 bytes; complete in the whole decoder object, registers, flags, positions, budget)", note=nt)
       for (n, sv, f, nt) in (
-        ("k_arm_raw_header", ["C03", "C04", "C05", "C06", "C07", "C08", "C12", "C13"], ["arm RawHeader", "read_bits", "read_byte"], ""),
+        ("k_arm_raw_header", ["C03", "C04", "C05", "C06", "C07", "C08", "C12", "C13", "C19"], ["arm RawHeader", "read_bits", "read_byte"], ""),
         ("k_arm_raw_memcpy", ["C03", "C04", "C05", "C07", "C08", "C13"], ["arm RawMemcpy1", "arm RawMemcpy2", "OutputBuffer::write_slice", "InputWrapper::advance"], ""),
         ("k_arm_raw_first_byte", ["C03", "C04", "C05", "C07", "C08", "C13"], ["arm RawReadFirstByte", "arm RawStoreFirstByte", "OutputBuffer::write_byte"], ""),
         ("k_arm_write_len_bytes_to_end", ["C03", "C04", "C05", "C06", "C07", "C08", "C13"], ["arm WriteLenBytesToEnd"], "transfer/apply_match replaced by contract models asserting their preconditions (real ones: V-transfer)"),
@@ -89,6 +89,10 @@ HARNESSES = [
     H("k_deflate_protocol", "K-deflate", ["C02", "C12", "C14"], fns=["deflate", "TDEFLFlush::from(MZFlush)"], cost=40,
       strength="B(in<=3,out<=3 bytes, loop unwinding assertion on; complete in wrapper state, flush, engine results)",
       note="compress replaced by contract model M-compress (proved by K-dispatch: counts<=offered, Done only after Finish, status latched; assumed: progress - Okay with output space and work left moved at least one byte)"),
+    # ---- K-boundary (feature block-boundary) ----
+    H("k_block_boundary_record", "K-boundary", ["C19"], fns=["DecompressorOxide::block_boundary_state", "DecompressorOxide::from_block_boundary_state"], args=["--features", "block-boundary"], cost=30),
+    H("k_block_boundary_exit", "K-boundary", ["C19"], fns=["decompress_with_limit (BlockDone arm with stop flag, epilogue)"], args=["--features", "block-boundary"], cost=40,
+      strength="B(out<=16,in<=4 bytes; complete in every register, table entry, flag and position)"),
     # ---- K-reset ----
     H("k_inflate_reset_policies", "K-reset", ["C18"], fns=["MinReset::reset", "ZeroReset::reset", "FullReset::reset", "InflateState::reset", "InflateState::reset_as", "DecompressorOxide::init"], cost=40),
     H("k_compressor_reset", "K-reset", ["C18", "C02", "C14", "C16"], fns=["CompressorOxide::reset", "ParamsOxide::reset", "DictOxide::reset", "HashBuffers::reset", "LZOxide::new", "HuffmanOxide::default"], cost=60,
